@@ -7,7 +7,8 @@ import decsuite as ds
 import gen
 import msggen
 
-THEOREMS = ["decodeStream_acct", "C09.c09_stream_step", "C09.c09_stream_end"]
+THEOREMS = ["decodeStream_acct", "C09.c09_stream_step", "C09.c09_stream_end", "decodeStream_ok", "specStream_inner", "stream_run",
+            "MsgWF.c09_stream", "MsgWF.c09_stream_cons", "MsgWF.c01_command", "MsgWF.c01_response"]
 
 
 def run(ctx, replay_case):
@@ -81,8 +82,25 @@ def run(ctx, replay_case):
                                    "what": f"stream decode differs from the messages decoded one by one (at line {k})",
                                    "replay": {**c.replay("S"), "expected": e, "observed": g,
                                               "messages": [(p[0], p[1], p[2], p[3].hex()) for p in c.meta["parts"]]}})
-    # objects: one per message, in order
+    # the hypothesis of the stream theorem (`specStream … = some _`) holds of the well-formed streams: the Lean specification, given
+    # the exchanges the model splits the stream into, dictates exactly the stream's bytes and as many events as the implementation emits
     okc = [c for c in cases if c.kind == "stream_ok"]
+    msp = core.run_model([f"MSPEC Stream - 0 {c.data.hex() or '-'}" for c in okc])
+    nspec = 0
+    idx = {id(c): i for i, c in enumerate(cases)}
+    for c, sp in zip(okc, msp):
+        im = simpl[idx[id(c)]]
+        nev = sum(1 for l in im if l.startswith("M "))
+        if not c.data:
+            continue
+        if im[-1].startswith("R done") and sp != [f"MS ok bytes={len(c.data)} events={nev}"]:
+            nspec += 1
+            if nspec <= 3:
+                ctx.violations.append({"kind": "correspondence",
+                                       "what": "the stream specification does not dictate what the implementation decodes from a well-formed stream",
+                                       "replay": {"correspondence": "MSPEC Stream", **c.replay("S"), "model": sp[0] if sp else "<none>",
+                                                  "impl": f"{len(c.data)} bytes, {nev} events, {im[-1][:80]}"}})
+    # objects: one per message, in order
     objs = core.run_impl([("OBJS", c.data) for c in okc])
     nobj = 0
     for c, ob in zip(okc, objs):
@@ -106,7 +124,7 @@ def run(ctx, replay_case):
                 "decodes (response under the preceding command's code and encrypt flag), first failing message's events and error; "
                 "events_to_objs == one object per message; non-trivial = more than one message",
         "samples": [{"messages": len(c.meta["parts"]), "hex": c.data.hex()[:120]} for c in cases[:: max(1, len(cases) // 5)]][:5],
-        "correspondence": {"ops": len(cases)},
+        "correspondence": {"ops": len(cases), "stream_spec_ops": len(okc), "stream_spec_rejections_or_mismatches": nspec},
         "distribution": {"kinds": ds.kinds_distribution(cases), "messages_per_stream": {str(k): v for k, v in sorted(lens.items())},
                          "stream_failures": nbad, "object_failures": nobj,
                          "outcomes": dict(collections.Counter(ds.outcome(b) for b in simpl))},
@@ -114,5 +132,6 @@ def run(ctx, replay_case):
 
 
 PROP = {"targets": ["TpmProofs.Props.C09"], "module": "TpmProofs.Props.C09", "theorems": THEOREMS, "run": run,
-        "assumptions": ["the pairing theorem over conforming message lists is not proved yet (needs the message-level spec); the stream loop's "
-                        "step and termination behaviour are theorems, the equality with per-message decodes is monitored + tied by correspondence"]}
+        "assumptions": ["the pairing theorem (MsgWF.c09_stream) is over well-formed exchanges (`specStream`, TpmModel/MsgSpec.lean); for streams with a "
+                        "malformed message the equality with per-message decodes is monitored + tied by correspondence, the stream loop's "
+                        "step and termination behaviour are theorems"]}
